@@ -24,12 +24,12 @@ CHECKS = {
         note="Assumption: harness reference OKLab/CIEDE2000 (refs.py, self-checked on the 34 Sharma-Wu-Dalal pairs) defines the witness and dE (1e-4 units, 1e-3 guard band); marginal witnesses are skipped.",
         ref="5 C03"),
     "C04": dict(
-        technique="TLA+ trace validation (TrPair.tla: StrictCapP, StepBoundedP, chain linkage; TrSearch.tla for direct calls) + TLC model checking of Bsl/BslAny/Gac/Strat",
-        text="Design level: Contract of the lightness search under arbitrary oracles (BslAny), of the multi-phase search for 4 schedule shapes (Gac), StrictCap on Strat. Code level: mode-0 results, every multi-phase-search call observed inside mode 1/2 runs (in/out/schedule via attribute wrapper in the harness process), and direct calls of the three documented routines with arbitrary tolerances/schedules, each judged by TLC.",
+        technique="TLA+ trace validation (TrPair.tla: StrictCapP, StepBoundedP, chain linkage; TrSearch.tla for direct calls) + TLC model checking of Bsl/BslAny/Gac/Strat + Apalache inductive invariant of Bsl for the real constants (ApaBsl.tla)",
+        text="Design level: Contract of the lightness search under arbitrary oracles (BslAny), of the multi-phase search for 4 schedule shapes (Gac), StrictCap on Strat; the lightness-search contract also for N=255, K=20 by a one-step inductive invariant (Apalache). Code level: mode-0 results, every multi-phase-search call observed inside mode 1/2 runs (in/out/schedule via attribute wrapper in the harness process), and direct calls of the three documented routines with arbitrary tolerances/schedules (incl. follow-up calls with a tolerance just below the move a routine made), each judged by TLC.",
         note="Assumption: reference CIEDE2000 from refs.py, 1e-3 guard band (results within it are inconclusive). Chain sub-check is skipped (stated in evidence) if the wrapped attribute is absent.",
         ref="5 C04"),
     "C05": dict(
-        technique="TLA+ definition (Wcag.tla, exact integer tables) + TLC trace validation of observed luminance/ratio/level/label values (TrWcag.tla, WcagLumAll.tla)",
+        technique="TLA+ definition (Wcag.tla, exact integer tables) + TLC trace validation of observed luminance/ratio/level/label values (TrWcag.tla, WcagLumAll.tla); thresholds decided to ~4e-12 of the ratio (CmpRatioFine)",
         text="Wcag.tla is the WCAG 2 definition in exact integer arithmetic; MC_Wcag checks its self-consistency on 4x65,536 pairs. Every observed luminance, ratio (both argument orders), level and label of the implementation is a state judged by TLC; thorough tier covers all 16,777,216 luminances and all 65,536 grey pairs.",
         note="Trusted: table generator (40 lines, integer bisection), floor(x*1e8)/floor(x*1e6) observation encoding.",
         ref="5 C05"),
